@@ -73,6 +73,15 @@ let table : (string * (string list -> string)) list = [
   "IsNumeric", strf (fun s -> pb (M.isNumeric s));
   "Migrate", strf (fun s -> let out = M.migrate_content s in
                             string_of_int (int_of_nat (M.migrate_count s)) ^ " " ^ hex_of_bytes out);
+  "Middleware", (fun a ->
+      (* variant decoded class msghex *)
+      let variant = List.nth a 0 = "1" and decoded = List.nth a 1 = "1" in
+      let v = match List.nth a 2 with
+        | "0" -> M.VOk
+        | "1" -> M.VFail (bytes_of_hex (List.nth a 3), false)
+        | _ -> M.VFail (bytes_of_hex (List.nth a 3), true) in
+      let r = M.mw_eval variant decoded v (bytes_of_hex "6e657874") in
+      Printf.sprintf "%d %d %s" (int_of_nat r.M.status) (if r.M.next_called then 1 else 0) (hex_of_bytes r.M.body));
   "RuneCount", strf (fun s -> string_of_int (int_of_nat (M.rune_count s)));
   "Runes", strf (fun s -> String.concat "," (List.map (fun r -> string_of_int (int_of_n r)) (M.runes s)));
 ]
